@@ -565,10 +565,9 @@ class HealpixLandscape(StokesLandscape):
 
     def tree_flatten(self):  # type: ignore[no-untyped-def]
         aux_data = {
-            'shape': self.shape,
-            'dtype': self.dtype,
-            'stokes': self.stokes,
             'nside': self.nside,
+            'stokes': self.stokes,
+            'dtype': self.dtype,
         }  # static values
         return (), aux_data
 
@@ -603,10 +602,9 @@ class FrequencyLandscape(HealpixLandscape):
 
     def tree_flatten(self):  # type: ignore[no-untyped-def]
         aux_data = {
-            'shape': self.shape,
-            'dtype': self.dtype,
-            'stokes': self.stokes,
             'nside': self.nside,
             'frequencies': self.frequencies,
+            'stokes': self.stokes,
+            'dtype': self.dtype,
         }  # static values
         return (), aux_data
